@@ -12,7 +12,8 @@ FUEL = 400
 
 
 class Case:
-    def __init__(self, fn: str, name: str, lean: str, py, norm, unordered: bool = False):
+    def __init__(self, fn: str, name: str, lean: str, py, norm, unordered: bool = False, lean_post=None):
+        self.lean_post = lean_post
         self.fn, self.name, self.lean, self.py, self.norm = fn, name, lean, py, norm
         self.unordered = unordered  # result is a dict whose key order is unspecified (set iteration)
 
@@ -174,7 +175,162 @@ def pipeline_cases(repo: str, tucan, tier: str, seed: int):
     return imports, prelude, cases
 
 
-def run_cases(tag: str, imports, prelude: str, cases: list[Case], workdir: str, chunk: int = 60, jobs: int = 16):
+def jatoms(d):
+    return L.jdict(d, lambda k: k, L.jattrs)
+
+
+def jbonds(d):
+    return L.jdict(d, L.jtuple_key, L.jattrs)
+
+
+def io_cases(repo: str, tucan, tier: str, seed: int):
+    from tucan.io import molfile_v3000_reader as r3, molfile_v2000_reader as r2, molfile_reader as rd, molfile_writer as wr
+    from tucan.io import graph_from_molfile_text
+    from . import molgen
+    rnd = random.Random(seed)
+    env = "env"
+    cases: list[Case] = []
+    n = 25 if tier == "quick" else 150
+    # --- V3000 reader on spec-style renderings and on corpus files
+    texts3 = []
+    for _ in range(n):
+        m = molgen.rand_mol(rnd, 5)
+        texts3.append(molgen.render_v3000(rnd, m, crlf=rnd.random() < .2))
+    files = sorted(glob.glob(os.path.join(repo, "tests/molfiles/*/*.mol")))
+    rnd.shuffle(files)
+    for f in files[: (6 if tier == "quick" else 40)]:
+        t = open(f).read()
+        if len(t) < 3000:
+            texts3.append(t)
+    for k, t in enumerate(texts3):
+        lines = t.splitlines()
+        LL = L.list_(lines, L.str_)
+        cases.append(Case("molfile_v3000_reader._concat_lines_with_dash", f"v3k-{k}",
+                          f"Tucan.molfile_v3000_reader._concat_lines_with_dash {env} {FUEL} {LL}",
+                          lambda lines=lines: r3._concat_lines_with_dash(lines), lambda r: r))
+        cases.append(Case("molfile_v3000_reader._tokenize_lines", f"v3k-{k}",
+                          f"Tucan.molfile_v3000_reader._tokenize_lines {env} {FUEL} {LL}",
+                          lambda lines=lines: r3._tokenize_lines(lines), lambda r: r))
+        cases.append(Case("molfile_v3000_reader.graph_attributes_from_molfile_v3000", f"v3k-{k}",
+                          f"Tucan.molfile_v3000_reader.graph_attributes_from_molfile_v3000 {env} {FUEL} {LL}",
+                          lambda lines=lines: r3.graph_attributes_from_molfile_v3000(lines), lambda r: [jatoms(r[0]), jbonds(r[1])]))
+        cases.append(Case("molfile_reader.graph_from_molfile_text", f"v3k-{k}",
+                          f"Tucan.molfile_reader.graph_from_molfile_text {env} {FUEL} {L.str_(t)}",
+                          lambda t=t: graph_from_molfile_text(t), L.jgraph))
+    # star atoms / ENDPTS
+    star = ["n", "  p", "c", "  0  0  0     0  0            999 V3000", "M  V30 BEGIN CTAB", "M  V30 COUNTS 4 2 0 0 0", "M  V30 BEGIN ATOM",
+            "M  V30 1 C 0 0 0 0", "M  V30 2 C 1 0 0 0", "M  V30 3 * 0 1 0 0", "M  V30 4 Fe 2 0 0 0 CHG=2", "M  V30 END ATOM", "M  V30 BEGIN BOND",
+            "M  V30 1 1 1 2", "M  V30 2 9 4 3 ENDPTS=(2 1 2) ATTACH=ALL", "M  V30 END BOND", "M  V30 END CTAB", "M  END"]
+    for variant in (star, [l.replace("ENDPTS=(2 1 2)", "ENDPTS=(3 1 2)") for l in star], [l.replace(" ENDPTS=(2 1 2) ATTACH=ALL", "") for l in star],
+                    [l.replace("2 9 4 3", "2 9 3 3") for l in star], [l.replace("COUNTS 4 2", "COUNTS 4 3") for l in star],
+                    [l.replace("M  V30 1 1 1 2", "M  V30 1 1 1 7") for l in star], star[:9], [l.replace("Fe", "Xx") for l in star]):
+        LL = L.list_(variant, L.str_)
+        cases.append(Case("molfile_v3000_reader.graph_attributes_from_molfile_v3000", "star",
+                          f"Tucan.molfile_v3000_reader.graph_attributes_from_molfile_v3000 {env} {FUEL} {LL}",
+                          lambda lines=variant: r3.graph_attributes_from_molfile_v3000(list(lines)), lambda r: [jatoms(r[0]), jbonds(r[1])]))
+    # --- V2000
+    texts2 = []
+    for _ in range(n):
+        m = molgen.rand_mol_v2000(rnd, 9)
+        mode = {"chg_lines": rnd.random() < .6, "stale_codes": rnd.random() < .5, "zeros": rnd.random() < .3, "extras": True}
+        texts2.append(molgen.render_v2000(rnd, m, mode))
+    files = sorted(glob.glob(os.path.join(repo, "tests/molfiles_v2000/*/*.mol")) + glob.glob(os.path.join(repo, "tests/molfiles_v2000/*.mol")))
+    rnd.shuffle(files)
+    for f in files[: (6 if tier == "quick" else 40)]:
+        t = open(f).read()
+        if len(t) < 3000:
+            texts2.append(t)
+    for k, t in enumerate(texts2):
+        lines = t.splitlines()
+        LL = L.list_(lines, L.str_)
+        cases.append(Case("molfile_v2000_reader.graph_attributes_from_molfile_v2000", f"v2k-{k}",
+                          f"Tucan.molfile_v2000_reader.graph_attributes_from_molfile_v2000 {env} {LL}",
+                          lambda lines=lines: r2.graph_attributes_from_molfile_v2000(lines), lambda r: [jatoms(r[0]), jbonds(r[1])]))
+        cases.append(Case("molfile_reader.graph_from_molfile_text", f"v2k-{k}",
+                          f"Tucan.molfile_reader.graph_from_molfile_text {env} {FUEL} {L.str_(t)}",
+                          lambda t=t: graph_from_molfile_text(t), L.jgraph))
+    # --- writer: graphs with wide indices / coordinates so that lines wrap
+    import networkx as nx
+
+    def wide_graph(k):
+        g = nx.Graph()
+        big = [0, 7, 10 ** 9, 10 ** 30, 10 ** 60][k % 5]
+        nn = rnd.randint(1, 4)
+        for i in range(nn):
+            d = {"element_symbol": rnd.choice(["C", "Og", "H"]), "x_coord": rnd.choice([0.5, -1125899906842624.5, 2.25, 4503599627370496.0]),
+                 "y_coord": rnd.choice([0.0, 1.125, -3.5]), "z_coord": rnd.choice([0.0, 9007199254740992.0])}
+            if rnd.random() < .4:
+                d["chg"] = rnd.choice([-15, -1, 1, 15, 16, 0])
+            if rnd.random() < .4:
+                d["rad"] = rnd.choice([1, 2, 3, 4, 0])
+            if rnd.random() < .4:
+                d["mass"] = rnd.choice([13, 2, 0, 10 ** 20])
+            g.add_node(big + i, **d)
+        nodes = list(g.nodes)
+        for i in range(nn):
+            for j in range(i + 1, nn):
+                if rnd.random() < .5:
+                    g.add_edge(nodes[i], nodes[j], **({"bond_type": rnd.choice([1, 2, 3, 10 ** 70])} if rnd.random() < .8 else {}))
+        return g
+
+    def mask(s):
+        ls = s.split("\n")
+        ls[1] = "<header>"
+        return "\n".join(ls)
+
+    for k in range(n):
+        g = wide_graph(k)
+        cases.append(Case("molfile_writer.graph_to_molfile", f"w-{k}",
+                          f"Tucan.molfile_writer.graph_to_molfile {env} {FUEL} {L.graph(g)} false",
+                          lambda g=g: wr.graph_to_molfile(g), lambda r: mask(r), lean_post=mask))
+    for ln in [0, 1, 71, 72, 73, 142, 143, 144, 300]:
+        line = ("abc def-" * 50)[:ln]
+        cases.append(Case("molfile_writer._add_v30_line", f"len-{ln}",
+                          f"Tucan.molfile_writer._add_v30_line {env} {FUEL} [py!\"x\"] {L.str_(line)}",
+                          lambda line=line: (lambda ls: (wr._add_v30_line(ls, line), ls)[1])(["x"]), lambda r: r))
+    prelude = "def env : DepEnv := harnessEnv [] []\n"
+    imports = ["Generated.Reader", "Generated.Writer"]
+    return imports, prelude, cases
+
+
+def ptree_lean(t, rule_names) -> str:
+    from antlr4.tree.Tree import TerminalNode
+    if isinstance(t, TerminalNode):
+        return f"(PTree.tok {L.str_(t.getText())})"
+    kids = [ptree_lean(c, rule_names) for c in (t.children or [])]
+    return f"(PTree.node \"{rule_names[t.getRuleIndex()]}\" [" + ", ".join(kids) + "])"
+
+
+def parser_cases(repo: str, tucan, tier: str, seed: int):
+    from tucan.parser import parser as pp
+    from tucan.parser.tucanParser import tucanParser
+    rnd = random.Random(seed)
+    env = "env"
+    cases: list[Case] = []
+    sentences = ["CH4/(1-2)(1-3)(1-4)(1-5)", "C2H6O/(1-3)(2-3)", "ClH/(1-2)", "H2O/(1-3)(2-3)/(1:mass=2)(3:rad=2)", "CHCl3/(1-2)(2-3)(2-4)(2-5)",
+                 "C10H2/(1-12)", "HeNe/", "C/", "CHN/(1-3)(2-3)/(2:mass=13,rad=2)", "BrCl/(1-2)", "CU/(1-2)", "Cu/", "NNa/", "/", "C2/(1-2)(2-1)(1-2)",
+                 "C2/(1-1)", "C2/(1-3)", "C2/(1-2)/(3:mass=2)", "C2/(1-2)/(1:mass=2)(1:mass=3)", "C2/(1-2)/(1:mass=2)(1:rad=3)", "C2/(1-2)/(2:rad=3,rad=1)",
+                 "OH2/", "C2H6/(1-2)/(2:mass=13)(1:mass=14)", "Og2H/(3-1)(2-3)", "C/(1-" + "1" * 4301 + ")", "C2/(1-2)/(1:mass=" + "9" * 4400 + ")"]
+    if tier != "quick":
+        toks = ["C", "H", "O", "N", "Cl", "2", "3", "10", "1", "(", ")", "-", "/", ":", ",", "=", "mass", "rad", "(1-2)", "(2:rad=3)"]
+        for _ in range(150):
+            s = rnd.choice(sentences[:14])
+            i = rnd.randrange(len(s) + 1)
+            sentences.append(s[:i] + rnd.choice(toks) + s[i:])
+    for s in sentences:
+        try:
+            parser = pp._prepare_parser(s)
+            tree = parser.tucan()
+        except pp.TucanParserException:
+            continue  # rejected by ANTLR: nothing for the hand-written part to do
+        T = ptree_lean(tree, tucanParser.ruleNames)
+        cases.append(Case("parser.graph_from_tree", s[:60], f"Tucan.parser.graph_from_tree {env} {T}",
+                          lambda s=s: pp.graph_from_tucan(s), L.jgraph))
+    prelude = "def env : DepEnv := harnessEnv [] []\n"
+    return ["Generated.Parser"], prelude, cases
+
+
+def run_cases(tag: str, imports, prelude: str, cases: list[Case], workdir: str, chunk: int = 24, jobs: int = 16):
     """returns (n_cases, mismatches:list, per-function counts, seconds)"""
     os.makedirs(workdir, exist_ok=True)
     t0 = time.time()
@@ -186,9 +342,12 @@ def run_cases(tag: str, imports, prelude: str, cases: list[Case], workdir: str, 
     chunks = [cases[i:i + chunk] for i in range(0, len(cases), chunk)]
     paths = []
     for ci, ch in enumerate(chunks):
-        lines = ["import PyModel.Json"] + [f"import {i}" for i in imports] + ["open Py", "set_option maxRecDepth 100000", prelude, "def main : IO Unit := do"]
-        for c in ch:
-            lines.append(f"  IO.println (toJ ({c.lean}))")
+        lines = ["import PyModel.Json"] + [f"import {i}" for i in imports] + ["open Py", "set_option maxRecDepth 100000", "set_option maxHeartbeats 0", prelude]
+        for k, c in enumerate(ch):
+            lines.append(f"def case{k} (_ : Unit) : String := toJ ({c.lean})")
+        lines.append("def main : IO Unit := do")
+        for k, c in enumerate(ch):
+            lines.append(f"  IO.println (case{k} ())")
         path = os.path.join(workdir, f"Diff_{tag}_{ci}.lean")
         open(path, "w").write("\n".join(lines) + "\n")
         paths.append(path)
@@ -205,25 +364,14 @@ def run_cases(tag: str, imports, prelude: str, cases: list[Case], workdir: str, 
     per_fn: dict[str, int] = {}
     for c, a, b in zip(cases, py_results, lean_results):
         per_fn[c.fn] = per_fn.get(c.fn, 0) + 1
+        if c.lean_post and "ok" in b:
+            b = {"ok": c.lean_post(b["ok"])}
         if c.unordered and "ok" in a and "ok" in b:
             a = {"ok": sorted(a["ok"]["d"], key=json.dumps)}
             b = {"ok": sorted(b["ok"]["d"], key=json.dumps)}
         if not L.same(a, b):
             mism.append({"function": c.fn, "input": c.name, "python": a, "lean": b})
     return len(cases), mism, per_fn, time.time() - t0
-
-
-if __name__ == "__main__":
-    repo = os.environ.get("TUCAN_REPO", "/repo")
-    tucan = load_tucan(repo)
-    tier = sys.argv[1] if len(sys.argv) > 1 else "quick"
-    imports, prelude, cases = pipeline_cases(repo, tucan, tier, 1)
-    n, mism, per_fn, secs = run_cases("pipeline", imports, prelude, cases, os.path.join(leanbuild.BUILD, "work"))
-    print(n, "cases", len(mism), "mismatches", f"{secs:.1f}s")
-    for k, v in per_fn.items():
-        print("  ", k, v)
-    for m in mism[:5]:
-        print(json.dumps(m)[:3000])
 
 
 def first_diff(a, b, path=""):
@@ -240,3 +388,20 @@ def first_diff(a, b, path=""):
                 return d
         return None
     return None if L.same(a, b) else f"{path}: python={json.dumps(a)[:300]} lean={json.dumps(b)[:300]}"
+
+
+if __name__ == "__main__":
+    repo = os.environ.get("TUCAN_REPO", "/repo")
+    tucan = load_tucan(repo)
+    tier = sys.argv[1] if len(sys.argv) > 1 else "quick"
+    which = sys.argv[2:] or ["pipeline", "io", "parser"]
+    for w in which:
+        imports, prelude, cases = {"pipeline": pipeline_cases, "io": io_cases, "parser": parser_cases}[w](repo, tucan, tier, 1)
+        n, mism, per_fn, secs = run_cases(w, imports, prelude, cases, os.path.join(leanbuild.BUILD, "work"))
+        print(w, n, "cases", len(mism), "mismatches", f"{secs:.1f}s")
+        for k, v in per_fn.items():
+            print("  ", k, v)
+        for m in mism[:12]:
+            print(m["function"], m["input"], first_diff(m["python"], m["lean"]))
+
+
